@@ -21,7 +21,7 @@ from typing import List
 from ..cfg import cfg_of
 from ..dataflow import flow_of
 from ..engine import Context, Reporter
-from ..model import AnalysisError, FuncInfo, norm_text
+from ..model import AnalysisError, ClassInfo, FuncInfo, dotted, norm_text, walk_no_nested
 from ..provenance import Origin, Tracer
 from ..util import call_arg, conds_holding_at, is_none_test, nodes_calling, unparse
 
@@ -147,6 +147,14 @@ def rule_r2(ctx: Context, R: Reporter, T: Tracer):
                     f"the process-wide stream is reset to a fixed value, so later draws no longer depend on the seed in force",
                 witness={"seed_site": s.loc, "chain": list(o.chain), "literal": o.detail},
             )
+        # a snapshot of the stream taken by the library itself and put back later rewinds the stream: everything drawn
+        # in between is replayed by whoever draws next (two unseeded runs in a row become bit-identical)
+        snaps = [o for o in origs if o.kind == "call" and "get_state" in (o.detail or "") + " " + repr(o)]
+        if snaps and s.name.endswith("set_state"):
+            R.check("C09.r2", "the library never rewinds the process-wide stream to a snapshot it took itself", False, s.func, s.call,
+                    msg=f"{s.func.short}: `{unparse(s.call)}` restores a snapshot taken by `get_state()` at {snaps[0].loc()}: the draws made in between are handed out again to the next "
+                        f"consumer, so successive (unseeded) runs replay the same innovations", key=f"stream-rewind:{s.func.short}")
+            continue
         unknown = [o for o in origs if o.kind in ("unknown", "call")]
         if unknown:
             raise AnalysisError(f"C09.r2: provenance of seed argument at {s.loc} not decidable: {unknown[:3]}")
@@ -230,8 +238,64 @@ def rule_r4(ctx: Context, R: Reporter):
                 key=f"draw:{d.func.short}:{norm_text(d.call)[:60]}")
 
 
+def rule_r5(ctx: Context, R: Reporter):
+    """No random variate outlives a seeding call: the result of a draw is never cached in process-lifetime
+    storage (an attribute of an object instantiated at module level, a class attribute, a module global);
+    such a buffer survives np.random.seed(), so the first draws of the next seeded run come from the
+    previous stream, and no draw happens at import time."""
+    module_singletons = {}
+    for m in ctx.prog.modules.values():
+        for nm, v in m.constants.items():
+            if isinstance(v, ast.Call):
+                r = ctx.prog.resolve_name(m, dotted(v.func)) if dotted(v.func) else None
+                if isinstance(r, ClassInfo):
+                    module_singletons[r.qualname] = f"{m.relpath}: {nm} = {unparse(v)[:40]}"
+        # import-time draws
+        for st in m.tree.body:
+            if isinstance(st, (ast.FunctionDef, ast.AsyncFunctionDef, ast.ClassDef)):
+                continue
+            for c in ast.walk(st):
+                if isinstance(c, ast.Call):
+                    d = dotted(c.func)
+                    head = d.split(".")[0] if d else ""
+                    full = (m.imports.get(head, head) + d[len(head):]) if d else ""
+                    if full.startswith("numpy.random.") and full.split(".")[-1] not in ("seed",):
+                        R.check("C09.r5", "no draw at import time", False, None, None, msg=f"{m.relpath}:{c.lineno}: `{unparse(c)[:50]}` consumes the global stream when the module is imported",
+                                key=f"import-time-draw:{m.relpath}:{norm_text(c)[:40]}", loc=f"{m.relpath}:{c.lineno}")
+    n = 0
+    for s in ctx.rng.draws():
+        fi = s.func
+        n += 1
+        # the statement holding the draw
+        st = None
+        for x in walk_no_nested(fi.node):
+            if isinstance(x, (ast.Assign, ast.AugAssign, ast.AnnAssign)) and any(y is s.call for y in ast.walk(x)):
+                st = x
+        globals_ = {g for x in walk_no_nested(fi.node) if isinstance(x, ast.Global) for g in x.names}
+        why = None
+        if st is not None:
+            tgts = st.targets if isinstance(st, ast.Assign) else [st.target]
+            for t in tgts:
+                for tt in ([t] if not isinstance(t, (ast.Tuple, ast.List)) else t.elts):
+                    base = tt
+                    while isinstance(base, ast.Subscript):
+                        base = base.value
+                    if isinstance(base, ast.Attribute) and isinstance(base.value, ast.Name):
+                        if base.value.id == "self" and fi.cls is not None and fi.cls.qualname in module_singletons:
+                            why = f"`{unparse(tt)[:30]}` of an object created at import time ({module_singletons[fi.cls.qualname]})"
+                        elif base.value.id == "cls" or (fi.cls is not None and base.value.id == fi.cls.name):
+                            why = f"the class attribute `{unparse(tt)[:30]}`"
+                    elif isinstance(base, ast.Name) and base.id in globals_:
+                        why = f"the module global `{base.id}`"
+        R.check("C09.r5", "no random variate is cached in storage that outlives a seeding call", why is None, fi, s.call,
+                msg=f"{fi.short}: the result of `{unparse(s.call)[:50]}` is kept in {why}: the buffer survives np.random.seed(), so a run seeded afterwards starts with variates of "
+                    f"the previous stream -- equal seeds no longer give equal runs in one process", key=f"draw-cached:{fi.short}:{norm_text(s.call)[:40]}")
+    R.floor("C09.r5", "draw sites inspected for process-lifetime caching", n, 8)
+
+
 def run(ctx: Context, R: Reporter):
     T = Tracer(ctx)
+    R.guard(rule_r5, ctx, R)
     R.guard(rule_r1, ctx, R, T)
     R.guard(rule_r2, ctx, R, T)
     R.guard(rule_r3, ctx, R)
@@ -239,7 +303,7 @@ def run(ctx: Context, R: Reporter):
 
 
 def variants():
-    from ..variants import Variant, alpha_rename, delete_stmt, insert_after, insert_before, replace_expr, replace_stmt
+    from ..variants import Variant, alpha_rename, chain, delete_stmt, insert_after, insert_before, replace_expr, replace_stmt
 
     core = "tempest/core.py"
     cl = "tempest/cluster.py"
@@ -254,6 +318,8 @@ def variants():
         Variant("r2-reseed-each-iteration", "bad", insert_before(core, "SamplerCore.execute_iteration", "weights = self.reweighter.run()", "np.random.seed(self.config.random_state)"), ["C09.r2"], quick=True),
         Variant("r3-stdlib-random", "bad", insert_before("tempest/steps/mutate.py", "Mutator.run", "beta = self.state.get_current('beta')", "import random\njitter = random.random()"), ["C09.r3"]),
         Variant("r3-time-seed", "bad", insert_before(core, "SamplerCore._initialize_fresh", "self.state.set_current('iter', 0)", "import time\nnp.random.seed(int(time.time()))"), ["C09.r3", "C09.r2", "ANALYSIS-ERROR"]),
+        Variant("r2-stream-rewind", "bad", chain(insert_before(core, "SamplerCore.run_sampling", "self.n_total = int(n_total)", "_stream = np.random.get_state()"), insert_after(core, "SamplerCore.run_sampling", "self.pbar.close()", "np.random.set_state(_stream)")), ["C09.r2"], quick=True),
+        Variant("r5-global-buffer", "bad", replace_stmt("tempest/steps/mutate.py", "Mutator.run", "u = np.random.rand(self.n_particles, self.n_dim)", "global _U\n_U = np.random.rand(self.n_particles, self.n_dim)\nu = _U"), ["C09.r5"], quick=True),
         Variant("benign-hoist-seed", "benign", replace_stmt(core, "SamplerCore._initialize_fresh", "np.random.seed(self.config.random_state)", "seed = self.config.random_state\nnp.random.seed(seed)"), quick=True),
         Variant("benign-seed-in-run", "benign", insert_before(core, "SamplerCore.run_sampling", "self.n_total = int(n_total)", "pass")),
     ]
